@@ -24,6 +24,8 @@ func condMatches(c Cond, v int, err error) bool {
 			}
 		}
 		return false
+	case "errs0":
+		return false
 	case "result":
 		// HandleResult applies to outcomes without an error (documented on the builders)
 		return err == nil && reflect.DeepEqual(v, c.V)
@@ -50,6 +52,9 @@ func errTypeMatches(err error, target any) bool {
 
 // isFailure is the documented classification of an outcome by handle conditions.
 func isFailure(handle []Cond, v int, err error) bool {
+	if len(handle) == 1 && handle[0].K == "errs0" {
+		handle = nil // HandleErrors() with an empty list configures nothing (only used on its own)
+	}
 	if len(handle) == 0 {
 		return err != nil
 	}
